@@ -299,6 +299,14 @@ Plan generate(uint64_t seed, const std::string& focus) {
         case SK::Disconnect: {
             s.a = (int)r.pick<int>({0x00, 0x00, 0x04});
             if (r.chance(0.4)) { if (r.chance(0.5)) s.props.push_back(PS(P_REASON_STRING, "bye" + ufiller(r, biased_len(r) % 300))); if (r.chance(0.3)) s.props.push_back(P(P_SESSION_EXPIRY, (uint32_t)r.below(100))); for (auto& u : gen_user_props(r, 2)) s.props.push_back(u); }
+            // a DISCONNECT on the boundary of the broker's Maximum Packet Size (properties must be dropped iff the packet exceeds it):
+            // one user property sized so that the packet is a few bytes below / exactly at / above the limit, with or without the rest
+            if (bk.base_caps.max_packet && *bk.base_caps.max_packet <= 200 && r.chance(0.5)) {
+                if (r.chance(0.5)) s.props.clear();
+                int64_t base = 4 + 7; for (auto& q : s.props) base += 3 + (int64_t)q.s1.size() + (q.id == P_USER ? 2 + (int64_t)q.s2.size() : 0) + (q.id == P_SESSION_EXPIRY ? 2 : 0);
+                int64_t vlen = (int64_t)*bk.base_caps.max_packet - base + r.pick<int>({-3, -2, -1, 0, 0, 1, 2, 12});
+                if (vlen > 0) s.props.push_back(PU("k0", filler(r, (size_t)vlen)));
+            }
             s.c = r.chance(0.2);
             run_pending = true;
             break;
@@ -426,6 +434,10 @@ Plan generate_exhaust(uint64_t seed) {
         { Step s; s.kind = SK::FPingSilent; s.a = 1; s.delay = 1 * SEC; push(s); }
         { Step s; s.kind = SK::PublishBurst; s.a = 65535 + (int)r.range(1, 40); s.b = 1; s.delay = 10 * MS; push(s); }
         { Step s; s.kind = SK::Wait; s.delay = 1 * SEC; push(s); }
+        // the broker answers again, the sentry gives the connection up, everything is retransmitted and acknowledged: identifiers
+        // are free again and further requests must be accepted (pid_overrun only while all 65535 are in use)
+        { Step s; s.kind = SK::Heal; s.delay = 1 * SEC; push(s); }
+        for (int i = 0; i < 3; ++i) { Step s; s.kind = SK::Publish; s.a = (int)r.range(1, 2); s.s1 = "t/" + std::to_string(id); s.s2 = std::to_string(id) + ":after"; s.delay = i ? 10 * MS : 90 * SEC; push(s); }
     }
     return pl;
 }
